@@ -54,6 +54,7 @@ def _validate(rep, files, parallel):
     jobs = [dict(module=TRACE_SPEC, cfg=TRACE_CFG, trace=f, workers=1, timeout=3600) for f in files]
     outclass, outidx = {}, {}
     for f, r in zip(files, core.tlc_many(jobs, parallel)):
+        rep.cov["events_with_must_less_than_may"] = rep.cov.get("events_with_must_less_than_may", 0) + len(re.findall(r'^<<"GAP", \d+>>', r.out, re.M))
         outidx[f] = set(int(x) for x in re.findall(r'^<<"OUTCLASS", (\d+)', r.out, re.M))
         rep.add_tlc(r)
         if r.error:
@@ -166,6 +167,7 @@ def check(seed, tier):
         "rule": "a case is one project run through the real cwe_416 check (event: project, configuration, reported (name, TID) set); non-trivial = at "
                 "least one warning is reported; distinct = distinct case hashes",
         "generated_programs": meta_g["events"], "reported_cwe416": meta_g["extra"].get("reported_cwe416"), "reported_cwe415": meta_g["extra"].get("reported_cwe415"),
+        "events_with_must_less_than_may": rep.cov.get("events_with_must_less_than_may", 0),
         "out_of_class_events": nout, "out_of_class_reasons": oc_g, "in_class_events": meta_g["events"] - nout,
         "hand_written_scenarios_replayed_into_impl": nsc, "out_of_class_scenarios": sum(oc_m.values()),
         "prerequisite_analysis_panics": skipped,
